@@ -6,6 +6,7 @@ import (
 	"strings"
 
 	"github.com/istio-ecosystem/authservice/zzverif/ev"
+	"github.com/istio-ecosystem/authservice/zzverif/schedx"
 	"github.com/istio-ecosystem/authservice/zzverif/seqx"
 	"github.com/istio-ecosystem/authservice/zzverif/world"
 )
@@ -187,13 +188,86 @@ func c02Run(run *ev.Run) {
 		}
 		run.Extra[fmt.Sprintf("levels_spec%d", i)] = st.LevelSizes
 	}
+	// interleavings: a second check on the same session while a refresh with an adversarial answer is in flight
+	b := 2
+	evils := []string{"foreign-same-kid", "aud-other", "alg-none"}
+	if run.Tier == "thorough" {
+		b = -1
+		evils = append(evils, "hs256-pub-pem", "payload-swapped", "sig-stripped")
+	}
+	for _, st := range []string{"memory", "redis"} {
+		for _, ek := range evils {
+			cs := schedx.Explore(run, "C02", c02Scenario(st, ek, b))
+			total.Histories += cs.Schedules
+			total.Transitions += cs.Points
+			total.States += int64(len(cs.Distinct))
+			if !cs.Complete {
+				run.Cap("scenario not completed: " + ek + "/" + st)
+			}
+		}
+	}
 	run.States, run.Transitions, run.Traces, run.Evals = total.States, total.Transitions, total.Histories, total.Transitions
 	run.Extra["replayed_events"] = total.Replayed
 	run.Extra["depth"] = depth
 	run.Extra["grammar"] = strings.Join(world.EvilKinds, ",")
 }
 
+// c02Scenario: two checks on the same expired session while the provider answers the refresh with an adversarial
+// token: whatever the interleaving (store calls, token call, key lookup), no check may forward a token that fails the
+// independent validator, and nothing invalid may stay bound.
+func c02Scenario(store, evil string, bound int) schedx.Scenario {
+	return schedx.Scenario{Name: fmt.Sprintf("2 checks on one expired session, refresh answered %s, store=%s", evil, store), Bound: bound,
+		Setup: func() *schedx.Instance {
+			w := world.New(world.Spec{Store: store, Forward: true})
+			sid := c15Prepare(w, "expired")
+			w.Envs = []*world.Env{{}, {}}
+			ans := world.Answer{Name: "evil:" + evil, Evil: evil}
+			var res [2]world.Result
+			bodies := make([]func(), 2)
+			for i := range bodies {
+				i := i
+				bodies[i] = func() { res[i] = w.Do(world.Req{Path: "/", Cookie: sid}, world.Plan{Answer: &ans}) }
+			}
+			return &schedx.Instance{Threads: bodies, Close: w.Close, Finish: func(x *schedx.Exec) (string, []schedx.Violation) {
+				var viols []schedx.Violation
+				var obs []string
+				for i, r := range res {
+					obs = append(obs, fmt.Sprintf("t%d(ok=%v code=%v)", i, r.OK, r.Code))
+					if !r.OK {
+						continue
+					}
+					for _, h := range r.Headers {
+						if h[0] == w.Cfg.GetIdToken().GetHeader() {
+							tok := strings.TrimPrefix(h[1], w.Cfg.GetIdToken().GetPreamble()+" ")
+							if why := c02Validate(w, tok, false, ""); why != "" {
+								viols = append(viols, schedx.Violation{Signature: "forwarded-unvalidated-token path=refresh answer=evil:" + evil,
+									Message: fmt.Sprintf("thread %d was answered OK and forwards an ID token that fails validation: %s", i, why)})
+							}
+						}
+					}
+				}
+				return strings.Join(obs, " "), viols
+			}}
+		}}
+}
+
 func c02ReplayFn(path string) int {
+	var sr schedx.Replay
+	if _, err := loadReplay(path, &sr); err == nil && sr.Scenario != "" {
+		for _, st := range []string{"memory", "redis"} {
+			for _, ek := range world.EvilKinds {
+				if sc := c02Scenario(st, ek, -1); sc.Name == sr.Scenario {
+					obs, v, err := schedx.ReplayOnce(sc, sr.Choices)
+					if err != nil {
+						fmt.Println(err)
+						return 2
+					}
+					return replayVerdict("C02", len(v) > 0, obs)
+				}
+			}
+		}
+		return 2
+	}
 	var rp c01Replay
 	if _, err := loadReplay(path, &rp); err != nil {
 		fmt.Println(err)
